@@ -232,14 +232,12 @@ Section Codec.
                     Ok (Some d, o + zlen b)
                   else Ok (None, pos0));
         let '(desc, pos) := dp in
-        do _g0 <- read_exact rd pos (gd_size * 4);          (* the stray directory read at the current position *)
         do _gd <- read_exact rd (vint h "primary_grain_directory_offset" * vmdk_SECTOR_SIZE) (gd_size * 4);
         Ok {| sm_kind := k; sm_header := h; sm_size := vint h "capacity" * vmdk_SECTOR_SIZE;
               sm_sector_count := vint h "capacity"; sm_gd_size := gd_size;
               sm_gt_size := vint h "num_grain_table_entries"; sm_descriptor := desc |}
       | HCowd =>
         let gd_size := vint h "num_grain_directory_entries" in
-        do _g0 <- read_exact rd pos0 (gd_size * 4);
         do _gd <- read_exact rd (vint h "primary_grain_directory_offset" * vmdk_SECTOR_SIZE) (gd_size * 4);
         Ok {| sm_kind := k; sm_header := h; sm_size := vint h "capacity" * vmdk_SECTOR_SIZE;
               sm_sector_count := vint h "capacity"; sm_gd_size := gd_size; sm_gt_size := 4096;
